@@ -10,7 +10,7 @@ From PFF Require Import Bytes Stream Proofs.StreamP Proofs.C03Inst.
 From PFF Require Pipeline Drv.Pipeline Drv.GenBody Drv.Stream.
 Import ListNotations.
 
-Definition drv_toolrun (tool algo mb hdr ms ik ies hlen fast ignore window : N) (db : list byte)
+Definition drv_toolrun (tool algo mb hdr ms ik ies hlen fast ignore window er : N) (db : list byte)
     (tree htab : list (list byte))
     (dk : list N) (dm dp : list (list byte)) (df : list N) (drm drp : list (list byte))
     (musizes : list N) (mutabs : list (list N))
@@ -21,14 +21,16 @@ Definition drv_toolrun (tool algo mb hdr ms ik ies hlen fast ignore window : N) 
   let bdec := fun k (_ : option byte) m p => Drv.Pipeline.o_dec td k tt m p in
   let look := fun p => Drv.Stream.st_lookup1 p (Drv.Stream.st_unflat2 tree) in
   let ign := negb (N.eqb ignore 0) in
+  (* --enable_erasures --erasure_symbol er (256 = erasure handling off); the intra-ecc calls pass the same option *)
+  let o := if (er <? 256)%N then match Byte.of_N er with Some b => Some b | None => None end else None in
   let fst_ := negb (N.eqb fast 0) in
   let out :=
     if (tool =? 0)%N then
       run_h Drv.GenBody.gb_marker Drv.GenBody.gb_delim ign look (intra_h algo (N.to_nat ik) (N.to_nat ies) idec)
-            (blocksH_pipe algo (N.to_nat mb) hash (N.to_nat hlen) bdec None fst_ (N.to_nat ms) (N.to_nat hdr)) db
+            (blocksH_pipe algo (N.to_nat mb) hash (N.to_nat hlen) bdec o fst_ (N.to_nat ms) (N.to_nat hdr)) db
     else
       run_w Drv.GenBody.gb_marker Drv.GenBody.gb_delim ign look (intra_w algo (N.to_nat ik) (N.to_nat ies) idec) (N.to_nat window)
-            (blocksW_pipe algo (N.to_nat mb) hash (N.to_nat hlen) bdec None fst_ (Drv.GenBody.tab_mu musizes mutabs)) db in
+            (blocksW_pipe algo (N.to_nat mb) hash (N.to_nat hlen) bdec o fst_ (Drv.GenBody.tab_mu musizes mutabs)) db in
   match out with
   | Done c o ex => (Some (Drv.Stream.st_ctr_list c ex), o)
   | Crash => (None, [])
